@@ -160,3 +160,22 @@ def blocks_only_when(fn, switch_block, value):
                         j = cfg.reachable_from(zero, avoid={b, switch_block})
                         out |= cfg.reachable_from(true_t, avoid={zero, b, switch_block}) - j
     return out
+
+
+def upvalue_closer(F):
+    """The function that closes open upvalues down to a stack address: the one function of vm::instr_execution that stores
+    into an upvalue's `location` field inside a loop. Looked up by what it does, so a rename does not break the rules."""
+    from .facts import AnchorMissing
+    out = []
+    for f in F.fns:
+        if not f.mir or f.is_closure or not f.path.startswith("vm::instr_execution::"):
+            continue
+        if not f.cfg.back_edges():
+            continue
+        for b in f.blocks:
+            if any(st["k"] == "assign" and field_path(st["place"])[-1:] == ["location"] for st in b["stmts"]):
+                out.append(f)
+                break
+    if len(out) != 1:
+        raise AnchorMissing("the upvalue-closing loop in vm::instr_execution (found %d candidates)" % len(out))
+    return out[0]
